@@ -207,19 +207,21 @@ impl ReadBufPool {
         // NOTE: initially poisoned in ReadBufPool::new.
         asan::unpoison(ring_buf);
         log::trace!(buffer_group = self.id, buffer = buf_id, addr:? = ptr; "reregistering buffer");
-        ring_buf.write(libc::io_uring_buf {
-            addr: ptr.cast::<u8>().as_ptr().addr() as u64,
-            len: self.buf_size,
-            bid: buf_id,
-            resv: 0,
-        });
+        // NOTE: we don't write the `resv` field as for the first buffer it
+        // overlaps with the ring tail, which the kernel can read at any time.
+        let ring_buf = ring_buf.as_mut_ptr();
+        unsafe {
+            (&raw mut (*ring_buf).addr).write(ptr.cast::<u8>().as_ptr().addr() as u64);
+            (&raw mut (*ring_buf).len).write(self.buf_size);
+            (&raw mut (*ring_buf).bid).write(buf_id);
+        }
         // NOTE: unpoisoned above.
         asan::poison_region(
-            ring_buf.as_ptr().cast(),
+            ring_buf.cast_const().cast(),
             // Don't poison the `resv` field, which overlaps with the ring tail
             // for the first buffer.
             size_of::<libc::io_uring_buf>()
-                - if ptr::eq(ring_buf.as_ptr(), self.ring_addr.cast()) {
+                - if ptr::eq(ring_buf.cast_const(), self.ring_addr.cast()) {
                     size_of::<u16>()
                 } else {
                     0
